@@ -3,6 +3,7 @@
 //! usage: bpsim <C01|...|replay|selftest|single-op> [--tier quick|thorough] [--seed N] [--jobs J]
 
 mod alloc;
+mod channel;
 mod checks;
 mod faultrng;
 mod free;
@@ -32,6 +33,8 @@ fn parse_opts(args: &[String]) -> Opts {
     let mut dump_hashes = None;
     let mut write_evidence = true;
     let mut child_json = None;
+    let mut stride = None;
+    let mut wal = None;
     let mut i = 0;
     while i < args.len() {
         match args[i].as_str() {
@@ -56,6 +59,15 @@ fn parse_opts(args: &[String]) -> Opts {
                 dump_hashes = Some(PathBuf::from(&args[i]));
             },
             "--no-evidence" => write_evidence = false,
+            "--stride" => {
+                i += 1;
+                let (k, j) = args[i].split_once('/').expect("--stride k/J");
+                stride = Some((k.parse().unwrap(), j.parse().unwrap()));
+            },
+            "--wal" => {
+                i += 1;
+                wal = Some(PathBuf::from(&args[i]));
+            },
             "--child-json" => {
                 i += 1;
                 child_json = Some(PathBuf::from(&args[i]));
@@ -80,6 +92,9 @@ fn parse_opts(args: &[String]) -> Opts {
         write_evidence,
         max_wall_s: if tier == Tier::Quick { 1_500 } else { 6 * 3600 },
         child_json,
+        stride,
+        wal,
+        check_probes: runs.is_none(),
     }
 }
 
@@ -95,6 +110,64 @@ fn replay_file<C: Check>(c: &C, f: &ReplayFile, path: &str) -> i32 {
             0
         },
     }
+}
+
+/// Run the whole seeded batch of `check` in `opts.jobs` single-threaded child processes
+/// (run i goes to child i mod J), each with a write-ahead file naming the run in progress.
+fn in_children<C: Check>(check: &C, name: &str, opts: &Opts) -> Vec<runner::ExtraPhase> {
+    let bin = std::env::current_exe().expect("current exe").to_string_lossy().to_string();
+    let j = opts.jobs.max(1) as u64;
+    let total = opts.runs.unwrap_or_else(|| check.runs(opts.tier));
+    let phases = std::sync::Mutex::new(Vec::new());
+    std::thread::scope(|sc| {
+        for k in 0..j {
+            let bin = bin.clone();
+            let phases = &phases;
+            sc.spawn(move || {
+                let wal = std::env::temp_dir().join(format!("bpsim-wal-{}-{}-{}", name, std::process::id(), k));
+                let _ = std::fs::remove_file(&wal);
+                let a: Vec<String> = vec![
+                    name.into(),
+                    "--tier".into(),
+                    opts.tier.name().into(),
+                    "--seed".into(),
+                    opts.seed.to_string(),
+                    "--jobs".into(),
+                    "1".into(),
+                    "--runs".into(),
+                    total.to_string(),
+                    "--stride".into(),
+                    format!("{}/{}", k, j),
+                    "--wal".into(),
+                    wal.to_string_lossy().to_string(),
+                ];
+                let mut ph = runner::child_phase(&format!("child_{}_of_{}", k, j), &bin, &a, &[]);
+                if ph.error.is_some() && ph.info.get("abnormal_exit").is_some() {
+                    // attribute the abort to the run named in the write-ahead file
+                    if let Ok(txt) = std::fs::read_to_string(&wal) {
+                        if let Ok(idx) = txt.trim().parse::<u64>() {
+                            let mut rng = simrng::SimRng::for_run(opts.seed, check.id(), idx);
+                            let scn = check.generate(&mut rng, opts.tier, idx);
+                            ph.found.push((
+                                runner::Violation::new(
+                                    "process_aborted",
+                                    format!("run {}", idx),
+                                    format!("child process died ({}) while executing run {}", ph.info["abnormal_exit"], idx),
+                                ),
+                                serde_json::to_value(&scn).unwrap(),
+                            ));
+                            ph.error = None;
+                        }
+                    }
+                }
+                let _ = std::fs::remove_file(&wal);
+                phases.lock().unwrap().push(ph);
+            });
+        }
+    });
+    let mut v = phases.into_inner().unwrap();
+    v.sort_by(|a, b| a.name.cmp(&b.name));
+    v
 }
 
 fn main() {
@@ -125,10 +198,25 @@ fn main() {
                 "C01" => checks::c01::C01,
                 "C03" => checks::c03::C03,
                 "C20" => checks::c20::C20,
+                "C05" => checks::c05::C05,
+                "C16" => checks::c16::C16,
             }
         },
         "C01" => drive(&checks::c01::C01, &parse_opts(&args[1..]), vec![]),
         "C03" => drive(&checks::c03::C03, &parse_opts(&args[1..]), vec![]),
+        "C05" => drive(&checks::c05::C05, &parse_opts(&args[1..]), vec![]),
+        "C16" => {
+            let opts = parse_opts(&args[1..]);
+            if opts.child_json.is_some() {
+                drive(&checks::c16::C16, &opts, vec![])
+            } else {
+                // every run executes in a child process so that an abort is attributed to a run
+                let phases = in_children(&checks::c16::C16, "C16", &opts);
+                let mut o = opts.clone();
+                o.runs = Some(16); // a small in-process batch supplies the evidence samples
+                drive(&checks::c16::C16, &o, phases)
+            }
+        },
         "C20" => {
             let opts = parse_opts(&args[1..]);
             let mut extra = vec![];
@@ -145,11 +233,8 @@ fn main() {
                 } else {
                     extra.push(runner::ExtraPhase {
                         name: "profile_other".into(),
-                        evaluations: 0,
-                        distinct: 0,
-                        info: serde_json::Value::Null,
-                        found: vec![],
                         error: Some("BPSIM_OTHER_BIN not set: run C20 through ./bpsim.sh so that both build profiles are exercised".into()),
+                        ..Default::default()
                     });
                 }
             }
